@@ -50,6 +50,15 @@ func c17Trans(c *Ctx, pre *Node, st Step, res *Result, post *State) ([]Violation
 			}
 			vs = append(vs, Violation{Oracle: o, Command: "add", Tags: st.Tags, Detail: "model disagrees: " + why + outputTail(res)})
 		}
+		// add and status use the same notion of "excluded", whatever reading of the ignore file one takes:
+		// once `add .` has succeeded, every file is either staged or excluded, so status lists nothing untracked
+		if len(vs) == 0 && res.Exit == 0 && len(st.Args) == 2 && (st.Args[1] == "." || st.Args[1] == "./") && qa.IndexErr == nil {
+			r, _ := c.Probe(post, nil, "status")
+			if rep := ParseStatus(r.Stdout); r.Exit == 0 && len(rep.Untracked) > 0 {
+				vs = append(vs, Violation{Oracle: "status-agrees-with-add", Command: "status", Tags: st.Tags, Trace: append(traceFor(c, pre, st), Run("status")),
+					Detail: fmt.Sprintf("after a successful `add .` status still lists untracked paths %q: add skipped what status does not hide", rep.Untracked)})
+			}
+		}
 	case "reset", "restore":
 		// Goit's own files change only where the command's model allows: index, the
 		// current branch, logs. Nothing else inside .goit is rewritten.
@@ -71,7 +80,7 @@ func c17Trans(c *Ctx, pre *Node, st Step, res *Result, post *State) ([]Violation
 }
 
 func checkC17(e *RunEnv) *CheckResult {
-	files := []string{"a", "sub/b", "build/o", "x.log", "sub/y.log", "my.goit/f", "goit/g", "a.logx", "build2/p", ".goit-hooks/h", "sub/.goit", "sub/build", "p.tar.gz", "nest/.goit/q", "a.b/f", "axb/f"}
+	files := []string{"a", "sub/b", "build/o", "x.log", "sub/y.log", "my.goit/f", "goit/g", "a.logx", "build2/p", ".goit-hooks/h", "sub/.goit", "sub/build", "p.tar.gz", "nest/.goit/q", "a.b/f", "axb/f", "src/build/Makefile", "src/build/gen.c"}
 	addArgs := []string{".", "./", "sub", "sub/..", "build", "build/o", "x.log", ".goit", ".goit/HEAD", "a", "my.goit", "goit"}
 	ignores := []string{"build/\n", "*.log\n", "build/\n*.log\n", "build/\r\n*.log\r\n", "*.tar.gz\n", "build/\n\n*.log\n", "a.b/\n"}
 	var seedFiles []Step
